@@ -48,7 +48,31 @@ def r1_opcode_map(rule, root=None):
             rule.bad("%s|missing" % v, "no opcode for RegOp::%s" % v, A.where(BC, ms[0]))
 
 
+_ROOT = [None]
+
+
+def _byte(t):
+    """`0xFF` / `255` / `u8::MAX` / a named constant with one of those values -> 'u8::MAX'; anything else as is"""
+    t = str(t)
+    for c in A.find_items(BC, "Const", root=_ROOT[0]):
+        if c.get("name") == t and c.get("e") is not None:
+            t = str(A.ftxt(c["e"]))
+    if re.fullmatch(r"(0[xX][fF][fF]|255)(u8)?|u8::MAX", t):
+        return "u8::MAX"
+    return t
+
+
+def _word(t):
+    """a named 32-bit constant -> its literal"""
+    t = str(t)
+    for c in A.find_items(BC, "Const", root=_ROOT[0]):
+        if c.get("name") == t and c.get("e") is not None:
+            return str(A.ftxt(c["e"]))
+    return t
+
+
 def new_fn(root=None, inline=False):
+    _ROOT[0] = root
     """Bytecode::new; with `inline`, its small local helpers (other than the register-byte writer) are read
     in place"""
     fn0 = A.find_fn(BC, "new", self_ty="Bytecode", root=root)
@@ -93,7 +117,7 @@ def _arm_facts(arm, names, store="store_reg"):
             l = A.strip(e["left"])
             r = A.strip(e["right"])
             if l.get("k") == "Index" and A.ident(A.strip(l["e"])) == "word":
-                facts["marks"].append((A.lit_value(l["index"]), A.ftxt(r)))
+                facts["marks"].append((A.lit_value(l["index"]), _byte(A.ftxt(r))))
             elif A.ident(l) == "imm":
                 # the second word's value, whether the variable is an Option (None = filler) or the word itself
                 if r.get("k") == "Call" and A.path_segs(r["func"]) == ["Some"] and len(r["args"]) == 1:
@@ -206,9 +230,11 @@ def r2_packing(rule, root=None):
     filler = None
     if forms == {"Some"} and init is not None and A.ident(init) == "None" and len(push_imm) == 1:
         m_ = re.fullmatch(r"imm\.unwrap_or\((\w+)\)", push_imm[0])
-        filler = m_.group(1) if m_ else None
+        filler = _word(m_.group(1)) if m_ else None
     elif forms == {"plain"} and init is not None and init.get("k") == "Lit" and push_imm == ["imm"]:
         filler = init.get("s")
+    elif forms == {"plain"} and init is not None and A.ident(init) and push_imm == ["imm"]:
+        filler = _word(A.ident(init))
     fv = None
     try:
         fv = int(re.sub(r"(u32|_)", "", filler or ""), 0)
@@ -224,13 +250,17 @@ def _reserved_rejected(cl, r, pi):
     """the closure yields Err(ReservedRegister) exactly when the repacked register is 0xFF and writes the
     byte only otherwise (if / else or early return)"""
     errs = [(v, c) for v, c in A.result_cases(cl["body"]) if str(A.ftxt(v)) == "Err(ReservedRegister)"]
-    if len(errs) != 1 or [A.norm_cond(x) for x in errs[0][1]] not in (["%s==u8::MAX" % r], ["u8::MAX==%s" % r]):
+    def nb(c_):
+        m_ = re.fullmatch(r"(!?)\(?(\w+(?:::\w+)?)(==|!=)(\w+(?:::\w+)?)\)?", c_)
+        return "%s(%s%s%s)" % (m_.group(1), *sorted([_byte(m_.group(2)), _byte(m_.group(4))])[:1], m_.group(3), sorted([_byte(m_.group(2)), _byte(m_.group(4))])[1]) if m_ else c_
+
+    if len(errs) != 1 or [nb(A.norm_cond(x)) for x in errs[0][1]] != [nb("%s==u8::MAX" % r)]:
         return False
     writes = [a for a in A.find(cl["body"], "Assign") if str(A.ftxt(a["left"])) == "word[%s]" % pi]
     if len(writes) != 1:
         return False
     conj = A.path_conjuncts(cl["body"], writes[0]) or set()
-    return any(c in conj for c in ("(%s!=u8::MAX)" % r, "(u8::MAX!=%s)" % r))
+    return nb("(%s!=u8::MAX)" % r) in {nb(c) for c in conj}
 
 
 def r3_store_reg(rule, root=None):
@@ -267,7 +297,7 @@ def r3_store_reg(rule, root=None):
                 continue
             r = A.ftxt(A.strip(a["right"]))
             i = A.lit_value(l["index"])
-            if r == "u8::MAX" and i in (1, 2, 3):
+            if _byte(r) == "u8::MAX" and i in (1, 2, 3):
                 continue
             if i == 0:
                 byte0 = str(r)
@@ -326,7 +356,7 @@ def r4_framing(rule, root=None):
                         appended += [str(A.ftxt(x)) for x in arr["elems"]]
                     else:
                         appended.append("?" + str(A.ftxt(arr)))
-    if defaults is not None and all(d in ("0xFF", "u8::MAX", "255") for d in defaults):
+    if defaults is not None and all(_byte(d) == "u8::MAX" for d in defaults):
         rule.ok("framing: all bytes default to 0xFF", file=BC, line=fn["ln"])
     else:
         rule.bad("framing|all bytes default to 0xFF", "the register bytes of an instruction word must default to 0xFF (found %s)" % defaults, A.where(fn))
